@@ -13,7 +13,7 @@ from __future__ import annotations
 
 import ast
 
-from ..astutil import call_name
+from ..astutil import expand_locals, call_name
 from ..cfg import walk_shallow
 from ..core import norm
 from ..index import FuncInfo
@@ -61,9 +61,8 @@ def _excluded_keys(conds):
             out |= ALL
         if isinstance(t, ast.Name) and t.id == "update" and neg:
             out |= ALL
-        # not update.get("k")   /   "k" not in update
-        if isinstance(t, ast.Call) and norm(t.func) == "update.get" and t.args and isinstance(t.args[0], ast.Constant) and neg:
-            out.add(t.args[0].value)
+        # "k" not in update   (NOT `not update.get("k")`: an update to an empty/falsy value — copy(operations=[]) — passes that test
+        #  although the key is being replaced)
         if isinstance(t, ast.Compare) and len(t.ops) == 1 and isinstance(t.left, ast.Constant) and norm(t.comparators[0]) == "update":
             if (isinstance(t.ops[0], ast.NotIn) and not neg) or (isinstance(t.ops[0], ast.In) and neg):
                 out.add(t.left.value)
@@ -104,6 +103,8 @@ def extra(ctx, rep):
                             return "sorted"
                         if cn == "list" and e.args and isinstance(e.args[0], ast.Call) and call_name(e.args[0]) == "range":
                             return "sorted"
+                        if cn in ("list", "tuple") and len(e.args) == 1 and kind(e.args[0]) == "sorted":
+                            return "sorted"
                         if cn in ("list", "tuple") and e.args and ({x.id for x in ast.walk(e.args[0]) if isinstance(x, ast.Name)} & params):
                             return "unsorted-outside"
                         if ({x.id for x in ast.walk(e) if isinstance(x, ast.Name)} & params) and "sorted" not in norm(e):
@@ -118,7 +119,7 @@ def extra(ctx, rep):
                         return "sorted" if ks == {"sorted"} else "unknown"
                     return "unknown"
 
-                k = kind(v)
+                k = kind(expand_locals(f.node, st, v))
                 if k == "sorted":
                     rep.proved("R-C40-canon", where, "None / sorted(...) / list(range(...))")
                 elif k == "unsorted-outside":
@@ -130,6 +131,21 @@ def extra(ctx, rep):
                     rep.unknown("R-C40-canon", where, "stored value form not modelled")
     rep.floor("stores to _trainable_params", n_store, 3)
 
+    cache_part(ix, rep)
+
+
+def _falsy_guard_keys(conds):
+    out = set()
+    for test, pol in conds:
+        for x in ast.walk(test):
+            if isinstance(x, ast.Call) and norm(x.func) == "update.get" and x.args and isinstance(x.args[0], ast.Constant):
+                out.add(x.args[0].value)
+    return out
+
+
+def cache_part(ix, rep, rule="R-C40-cache", slots=None, floor=3):
+    """shared by C40 (all carried caches) and C05 (the memoised `hash`, rule R-C05-stale)"""
+    qs = ix.cls(QS, "QuantumScript")
     cp = qs.own_method("copy")
     if cp is None:
         return
@@ -138,7 +154,7 @@ def extra(ctx, rep):
         if isinstance(st, ast.Assign) and isinstance(st.value, ast.Call) and norm(st.value.func) in ("self.__class__", "type(self)", "QuantumScript"):
             newname = st.targets[0].id if isinstance(st.targets[0], ast.Name) else None
     if newname is None:
-        rep.unknown("R-C40-cache", f"{QS}:QuantumScript.copy", "construction of the new script not recognised")
+        rep.unknown(rule, f"{QS}:QuantumScript.copy", "construction of the new script not recognised")
         return
 
     n_carry = 0
@@ -158,7 +174,7 @@ def extra(ctx, rep):
                 slot = t.attr
             elif isinstance(t, ast.Subscript) and norm(t.value) == f"{newname}.__dict__" and isinstance(t.slice, ast.Constant):
                 slot = t.slice.value
-            if slot is None:
+            if slot is None or (slots is not None and slot not in slots):
                 continue
             # which expression carries self's cache, and under which extra conditions (IfExp)?
             branches = []
@@ -177,16 +193,21 @@ def extra(ctx, rep):
                 deps = _deps(qs, comp)
                 where = f"{QS}:QuantumScript.copy carries `{slot}`"
                 if not deps:
-                    rep.unknown("R-C40-cache", where, f"dependencies of `{comp}` not resolved")
+                    rep.unknown(rule, where, f"dependencies of `{comp}` not resolved")
                     continue
                 excl = _excluded_keys(cs)
                 missing = sorted(deps - excl)
                 if missing:
-                    rep.refuted("R-C40-cache", QS, "QuantumScript.copy", st,
-                                f"copy() carries the original's cached `{slot}` over although `{comp}` depends on {sorted(deps)} and the guard does not "
-                                f"exclude an update of {missing}: `tape.copy({missing[0]}=…)` returns a circuit whose `{slot}` still describes the original")
+                    falsy = sorted(set(missing) & _falsy_guard_keys(cs))
+                    how = (f"the guard tests `update.get({falsy[0]!r})` for truthiness, which also holds when the key is replaced by an empty value: "
+                           f"`tape.copy({falsy[0]}=[])`" if falsy else f"the guard does not exclude an update of {missing}: `tape.copy({missing[0]}=…)`")
+                    rep.refuted(rule, QS, "QuantumScript.copy", st,
+                                f"copy() carries the original's cached `{slot}` over although `{comp}` depends on {sorted(deps)} and {how} "
+                                f"returns a circuit whose `{slot}` still describes the original")
                 else:
-                    rep.proved("R-C40-cache", where, f"depends on {sorted(deps)}; carried only when none of them is updated")
+                    rep.proved(rule, where, f"depends on {sorted(deps)}; carried only when none of them is updated")
 
     visit(cp.node.body, [])
-    rep.floor("cached values carried over by copy()", n_carry, 3)
+    if floor:
+        rep.floor("cached values carried over by copy()", n_carry, floor)
+    return n_carry
